@@ -102,9 +102,9 @@ func (e *storEnv) guard(what string, f func() error) error {
 	select {
 	case err := <-done:
 		return err
-	case <-time.After(20 * time.Second):
+	case <-time.After(90 * time.Second):
 		for _, p := range []string{"C16", "C14"} {
-			e.violation(p, what+" did not return within 20 s (hang)")
+			e.violation(p, what+" did not return within 90 s (hang)")
 		}
 		e.w.Close()
 		e.st.TraceFiles = []string{} // the trace ends mid-operation: nothing to replay
